@@ -14,3 +14,6 @@ open GoSQLXModel
 #print axioms Props.C02.token_count_is_bounded
 #print axioms Props.C02.token_limit_refuses_reference_text
 #print axioms Props.C02.gen_depth_counted_until_left
+#print axioms Props.C02.byte_limit_refuses
+#print axioms Props.C02.byte_limit_boundary
+#print axioms Props.C02.reference_text_at_byte_limit_accepted
